@@ -40,6 +40,11 @@ def handle (line : String) : Json :=
   | .ok j =>
     match (j.getObjValAs? String "op").toOption with
     | some "front" => handleFront j
+    | some "accepts" =>
+      let s := (j.getObjValAs? String "s").toOption.getD ""
+      let r := Model.front Model.walkCfgTreeOnly true s.toList
+      Json.mkObj [("accepts", Json.bool (match r with | .ok _ => true | _ => false)),
+                  ("verdict", match r with | .ok _ => "ok" | .lexError => "lex-error" | .parseError => "parse-error" | .shapeError => "shape-error")]
     | some "ping" => Json.mkObj [("pong", Json.bool true)]
     | _ => Json.mkObj [("error", "unknown op")]
 
